@@ -37,6 +37,9 @@ impl BigInt {
     pub fn signum(&self) -> (r: BigInt) ensures r@ == (if self@ > 0 { 1int } else if self@ < 0 { -1int } else { 0int }) { unimplemented!() }
     #[verifier::external_body]
     pub fn sign(&self) -> (r: Sign) ensures r == (if self@ > 0 { Sign::Plus } else if self@ < 0 { Sign::Minus } else { Sign::NoSign }) { unimplemented!() }
+    /// num::Signed::is_negative
+    #[verifier::external_body]
+    pub fn is_negative(&self) -> (r: bool) ensures r == (self@ < 0) { unimplemented!() }
     #[verifier::external_body]
     pub fn abs(&self) -> (r: BigInt) ensures r@ == (if self@ >= 0 { self@ } else { -self@ }) { unimplemented!() }
     #[verifier::external_body]
